@@ -17,6 +17,13 @@
 (*        it is meant for.                                                      *)
 (*   Revoke(S)  the revokers in S decrypt their shares: they reconstruct the    *)
 (*        holder's public identity credential iff |S| >= thr (Shamir.tla).      *)
+(*   RevokePrf(S)  the revokers in S decrypt their shares of the holder's PRF   *)
+(*        key from the identity request kept by the provider (eight 32-bit       *)
+(*        chunks each): they reconstruct the key iff |S| >= thr.  With the key    *)
+(*        all credentials of the identity can be linked.                          *)
+(*   Recover(p)  the holder asks the provider for a lost identity object by       *)
+(*        proving knowledge of the secret identity credential; the proof is bound   *)
+(*        to the provider (identity and key), the chain parameters and a time.      *)
 (***************************************************************************)
 EXTENDS Naturals, Integers, Sequences, FiniteSets, TLC, Json
 
@@ -58,16 +65,30 @@ Revoke(S) ==
   /\ hist' = Append(hist, [op |-> "revoke", revokers |-> S, ok |-> Cardinality(S) >= idobj[1].thr])
   /\ UNCHANGED <<idobj, cred>>
 
+RecoverPerturbations == {"none", "other_ip_identity", "other_ip_key", "other_global", "timestamp", "id_cred_pub", "proof"}
+Recover(p) ==
+  /\ idobj # <<>>
+  /\ hist' = Append(hist, [op |-> "recover", perturb |-> p, ok |-> p = "none"])
+  /\ UNCHANGED <<idobj, cred>>
+
+RevokePrf(S) ==
+  /\ idobj # <<>>
+  /\ hist' = Append(hist, [op |-> "revoke_prf", revokers |-> S, ok |-> Cardinality(S) >= idobj[1].thr])
+  /\ UNCHANGED <<idobj, cred>>
+
 INext ==
   \/ \E v \in {0, 1}, ars \in (SUBSET Revokers) \ {{}}, thr \in 1..N : thr <= Cardinality(ars) /\ (BigOnly => (Cardinality(ars) >= 4 /\ thr >= 4)) /\ Request(v, ars, thr)
   \/ \E c \in Counters, r \in SUBSET Attrs, k \in {"new", "existing"} : (BigOnly => (c = 0 /\ r = {} /\ k = "new")) /\ Create(c, r, k)
   \/ \E p \in Perturbations : (BigOnly => p = "none") /\ Verify(p)
   \/ \E S \in SUBSET Revokers : idobj # <<>> /\ S \subseteq idobj[1].ars /\ S # {} /\ (BigOnly => Cardinality(S) >= 3) /\ Revoke(S)
+  \/ \E S \in SUBSET Revokers : idobj # <<>> /\ S \subseteq idobj[1].ars /\ S # {} /\ (BigOnly => Cardinality(S) >= 3) /\ RevokePrf(S)
+  \/ \E p \in RecoverPerturbations : ~BigOnly /\ Recover(p)
 ISpec == IInit /\ [][INext]_ivars
 
 (* a credential exists only for counters within the account limit; revocation needs the threshold *)
 CounterLimit == \A i \in 1..Len(hist) : (hist[i].op = "verify" /\ hist[i].ok) => cred[1].counter <= MaxAccounts
-ThresholdMeaning == \A i \in 1..Len(hist) : hist[i].op = "revoke" => (hist[i].ok <=> Cardinality(hist[i].revokers) >= idobj[1].thr)
+ThresholdMeaning == \A i \in 1..Len(hist) : hist[i].op \in {"revoke", "revoke_prf"} => (hist[i].ok <=> Cardinality(hist[i].revokers) >= idobj[1].thr)
+OnlyUntouchedRecovers == \A i \in 1..Len(hist) : (hist[i].op = "recover" /\ hist[i].ok) => hist[i].perturb = "none"
 OnlyUntouchedVerifies == \A i \in 1..Len(hist) : (hist[i].op = "verify" /\ hist[i].ok) => hist[i].perturb = "none"
 Bound == Len(hist) <= MaxOps
 ExportEdge == PrintT(<<"REPLAY", ToJson([kind |-> "identity", n |-> N, max_accounts |-> MaxAccounts, ops |-> hist'])>>)
